@@ -48,11 +48,18 @@ func vCoreTables() []vTable {
 		/* 34 */ one("/t", vRoute{method: "POST", path: "/a", consumes: vAJ, noCT: []string{"POST"}}, vRoute{method: "GET", path: "/a", consumes: vAJ, noCT: []string{"PUT"}}),
 		/* 35 */ {services: []vService{{root: "/t/{id}", routes: []vRoute{g("/"), g("/r")}}, {root: "/t", routes: []vRoute{g("/"), vRoute{method: "POST", path: "/"}}}}},
 		/* 36 */ {services: []vService{{root: "/t", routes: []vRoute{g("/")}}, {root: "/t/{id}", routes: []vRoute{g("/r")}}, {root: "/tt", routes: []vRoute{g("/")}}}},
+		/* 37 */ {services: []vService{{root: "/f/{n}.x", routes: []vRoute{g("/e")}}, {root: "/f/{n}.y", routes: []vRoute{g("/e")}}}},
+		/* 38 */ {services: []vService{{root: "/t/a", routes: []vRoute{g("/")}}, {root: "/t/{s}", routes: []vRoute{g("/"), vRoute{method: "POST", path: "/"}}}}},
+		/* 39 */ one("/a/b/c", g("/{id}"), vRoute{method: "PUT", path: "/{u}"}),
+		/* 40 */ one("/t", vRoute{method: "POST", path: "/a"}, vRoute{method: "POST", path: "/{v}", consumes: vAJ}, vRoute{method: "GET", path: "/a"}, vRoute{method: "GET", path: "/{w}", produces: vAJ}),
+		/* 41 */ one("/t", vRoute{method: "GET", path: "/a", cond: true}, vRoute{method: "GET", path: "/a", cond: true}),
 	}
 }
 
 // tables that use template forms only CurlyRouter documents
-func vCurlyOnly(tbl int) bool { return tbl == 2 || tbl == 3 || tbl == 6 || tbl == 18 || tbl == 22 || tbl == 28 }
+func vCurlyOnly(tbl int) bool {
+	return tbl == 2 || tbl == 3 || tbl == 6 || tbl == 18 || tbl == 22 || tbl == 28 || tbl == 37
+}
 
 func vTableFor(tbl int) vTable {
 	if tbl >= 5000 {
